@@ -111,13 +111,71 @@ def term_depth(t, cache):
     return d
 
 
+def _has_q(e, cache):
+    i = e.get_id()
+    if i in cache:
+        return cache[i]
+    r = z3.is_quantifier(e) or any(_has_q(c, cache) for c in e.children())
+    cache[i] = r
+    return r
+
+
+def pull_universals(h, cache=None, depth=0):
+    """hypothesis -> equivalent list of formulas in which positive universals under /\, A => . and \/ with
+    quantifier-free side formulas are pulled to the top (so that they can be instantiated pointwise)"""
+    cache = {} if cache is None else cache
+    if depth > 12 or not _has_q(h, cache):
+        return [h]
+    if z3.is_and(h):
+        out = []
+        for c in h.children():
+            out.extend(pull_universals(c, cache, depth + 1))
+        return out
+    if z3.is_quantifier(h) and h.is_forall():
+        n = h.num_vars()
+        consts = [z3.FreshConst(h.var_sort(i), "pv") for i in range(n)]
+        body = z3.substitute_vars(h.body(), *reversed(consts))
+        if not _has_q(body, cache):
+            return [h]
+        out = []
+        for p in pull_universals(body, cache, depth + 1):
+            out.append(z3.ForAll(consts, p))
+        return out
+    if z3.is_implies(h) and not _has_q(h.arg(0), cache):
+        a = h.arg(0)
+        out = []
+        for p in pull_universals(h.arg(1), cache, depth + 1):
+            if z3.is_quantifier(p) and p.is_forall():
+                n = p.num_vars()
+                consts = [z3.FreshConst(p.var_sort(i), "pv") for i in range(n)]
+                out.append(z3.ForAll(consts, z3.Implies(a, z3.substitute_vars(p.body(), *reversed(consts)))))
+            else:
+                out.append(z3.Implies(a, p))
+        return out
+    if z3.is_or(h):
+        ch = h.children()
+        qs = [i for i, c in enumerate(ch) if _has_q(c, cache)]
+        if len(qs) == 1:
+            rest = [c for i, c in enumerate(ch) if i != qs[0]]
+            out = []
+            for p in pull_universals(ch[qs[0]], cache, depth + 1):
+                if z3.is_quantifier(p) and p.is_forall():
+                    n = p.num_vars()
+                    consts = [z3.FreshConst(p.var_sort(i), "pv") for i in range(n)]
+                    out.append(z3.ForAll(consts, z3.Or(*(rest + [z3.substitute_vars(p.body(), *reversed(consts))]))))
+                else:
+                    out.append(z3.Or(*(rest + [p])))
+            return out
+    return [h]
+
+
 def instantiate(qhyps, ground_formulas, cap=4000, rounds=1, maxdepth=None):
     """instances of the universally quantified hypotheses at ground terms of `ground_formulas`
     (terms deeper than maxdepth are not used as instances)"""
     insts = []
     qs = []
     for h in qhyps:
-        for c in split_conj(h):
+        for c in pull_universals(h):
             if z3.is_quantifier(c) and c.is_forall():
                 qs.append(c)
             else:
